@@ -326,6 +326,21 @@ class Stall:
         return self.base(enabled, kernel)
 
 
+class Starve:
+    """One task (or all whose name contains `victim`) is delayed without limit: it runs only when nothing else can.  The
+    purest form of "however long any one thread is delayed" - everybody who does not need the victim keeps going."""
+
+    def __init__(self, base, victim):
+        self.base, self.victim = base, victim
+
+    def __call__(self, enabled, kernel):
+        rest = [t for t in enabled if self.victim not in t.name]
+        if rest and len(rest) < len(enabled):
+            kernel.stalled_steps += 1
+            return self.base(rest, kernel)
+        return self.base(enabled, kernel)
+
+
 class Replay:
     """Follow an explicit trace of task ids; if the recorded task is not enabled (the code changed), fall back
     to the first enabled task."""
@@ -365,6 +380,8 @@ def make_chooser(spec):
         base = Preemptions(spec['at'], spec.get('order', 0))
     else:
         raise ValueError(kind)
+    if spec.get('starve'):
+        base = Starve(base, spec['starve'])
     if spec.get('stalls'):
         return Stall(base, spec['stalls'])
     return base
